@@ -157,9 +157,16 @@ static Gen gen_table(Rng& r, uint32_t nd, int periods_kind, uint64_t maxcoef) {
     std::vector<uint64_t> naxes(nd);
     int spread = attempt < 200 ? 4 : 0;
     for (uint32_t i = 0; i < nd; i++) naxes[i] = g.ord[i] + 1 + r.below(spread + 1);
+    // shape classes: pairwise different axis lengths (the layout is then visible in the shape alone), but also tables in which
+    // some or all axes have the SAME length: a permutation that exchanges such axes leaves the shape unchanged and only the
+    // placement of the coefficients (and every per-axis attribute) tells whether it was carried out
+    int shape = (nd >= 2) ? (int)r.below(5) : 4;
+    if (shape == 0) { uint64_t N = 0; for (uint32_t i = 0; i < nd; i++) N = std::max<uint64_t>(N, g.ord[i] + 1); N += r.below(2); for (auto& n : naxes) n = N; }
+    else if (shape == 1) { uint32_t a = r.below(nd), b = r.below(nd - 1); if (b >= a) b++; uint64_t N = std::max(g.ord[a], g.ord[b]) + 1 + r.below(3); naxes[a] = naxes[b] = N; }
+    stats[shape == 0 ? "shape_all_axes_equal" : shape == 1 ? "shape_two_axes_equal" : "shape_axes_pairwise_different"]++;
     bool distinct = true; uint64_t prod = 1;
     for (uint32_t i = 0; i < nd; i++) { prod *= naxes[i]; for (uint32_t j = 0; j < i; j++) if (naxes[i] == naxes[j]) distinct = false; }
-    if (!distinct || prod > maxcoef) { if (attempt < 400) continue; }
+    if ((shape >= 2 && !distinct) || prod > maxcoef) { if (attempt < 400) continue; }
     g.kn.clear();
     for (uint32_t i = 0; i < nd; i++) {
       int extra = (int)(naxes[i] - g.ord[i] - 1);
